@@ -48,6 +48,8 @@ def ops_of(u):
     ops = []
     for i, (n, p, k) in enumerate(u["lang_regs"]):
         ops.append(("rl", n, p, k, "desc" if i % 2 else "args"))
+        if k == "none":
+            ops.append(("rl", n, p, k, "args" if i % 2 else "desc"))  # a registration without meta-model in both forms
     ops.append(("cl",))
     for n in u["mm_names"]:
         ops.append(("ml", n, None))
@@ -289,7 +291,8 @@ class Real:
                             m._tok = ("mm", "fact", _label, repr(kw), self.serial)
                         return m
                 if form == "desc":
-                    d = R.LanguageDesc(n, pattern=p, description="", metamodel=mm)
+                    # a descriptor that names no meta-model is built without the argument (the default of LanguageDesc)
+                    d = R.LanguageDesc(n, pattern=p, description="") if kind == "none" else R.LanguageDesc(n, pattern=p, description="", metamodel=mm)
                     d._tok = (kind, label)
                     R.register_language(d)
                 else:
